@@ -212,8 +212,11 @@ def check_info_history(ctx, case):
                                 (1, "s1", case["seed"] + 1)):
             sh = disk["scales"][sidx]["sharding"]
             params = {k: sh[k] for k in (
-                "minishard_bits", "shard_bits", "preshift_bits",
-                "minishard_index_encoding", "data_encoding")}
+                "minishard_bits", "shard_bits", "preshift_bits")}
+            # optional fields, "raw" when left out
+            params["minishard_index_encoding"] = sh.get(
+                "minishard_index_encoding", "raw")
+            params["data_encoding"] = sh.get("data_encoding", "raw")
             for pos in order:
                 cid = sc.chunk_id(pos, case["grid"])
                 try:
